@@ -514,6 +514,17 @@ static Token *paste(Token *lhs, Token *rhs) {
   return tok;
 }
 
+// Returns a copy of a token list, including the EOF token at its end.
+static Token *copy_token_list(Token *tok) {
+  Token head = {};
+  Token *cur = &head;
+
+  for (; tok->kind != TK_EOF; tok = tok->next)
+    cur = cur->next = copy_token(tok);
+  cur->next = copy_token(tok);
+  return head.next;
+}
+
 static bool has_varargs(MacroArg *args) {
   for (MacroArg *ap = args; ap; ap = ap->next)
     if (!strcmp(ap->name, "__VA_ARGS__"))
@@ -629,7 +640,9 @@ static Token *subst(Token *tok, MacroArg *args) {
     // Handle a macro token. Macro arguments are completely macro-expanded
     // before they are substituted into a macro body.
     if (arg) {
-      Token *t = preprocess2(arg->tok);
+      // preprocess2 relinks and modifies the tokens it is given, and
+      // arg->tok is shared by all occurrences of the parameter.
+      Token *t = preprocess2(copy_token_list(arg->tok));
       t->at_bol = tok->at_bol;
       t->has_space = tok->has_space;
       for (; t->kind != TK_EOF; t = t->next)
